@@ -328,6 +328,15 @@ func main() {
 				inconclusive = append(inconclusive, fmt.Sprintf("%s: vacuous (reachability witness %q not reached on any feasible path)", h.Fn, l))
 			}
 		}
+		// cross-path lock-discipline obligation: a field read without the lock on some path
+		// must not be stored to on any path of this harness
+		for lbl, site := range rep.UnlockedLoads {
+			if rep.StoredLabels[lbl] {
+				rep.Findings = append(rep.Findings, sx.Finding{Harness: h.Fn, Kind: "discipline",
+					Msg:  fmt.Sprintf("C11: %s is read without holding the mutex although other paths store to it", lbl),
+					Site: site})
+			}
+		}
 		// findings -> native replay -> classification
 		for _, f := range rep.Findings {
 			nReplays++
@@ -338,7 +347,11 @@ func main() {
 			os.WriteFile(rp, jb, 0o644)
 			reproduced := false
 			detail := ""
-			if native != nil {
+			if f.Kind == "discipline" {
+				// lock-discipline / write-set obligations are properties of every schedule: there is
+				// no single native run that confirms them, the witness is the symbolic path itself
+				reproduced = true
+			} else if native != nil {
 				repeat := 1
 				if f.NeedsMapOrder {
 					repeat = 2000
@@ -352,6 +365,9 @@ func main() {
 						if a == f.Msg {
 							reproduced = true
 						}
+					}
+					if out.OOM && strings.Contains(f.Msg, "memory") {
+						reproduced = true // the real process ran out of its address-space limit
 					}
 					if !reproduced {
 						detail = fmt.Sprintf("native run did not fail %q (failed: %v panic: %q)", f.Msg, out.Asserts, out.Panic)
@@ -529,6 +545,7 @@ func buildEvidence(id, tier string, seed int, spec CheckSpec, results []hres2, i
 			"ssa_instructions_executed": rep.Steps, "exhausted": rep.Exhausted, "reach_witnesses": rep.Reached,
 			"map_ranges_forked_over_all_orders": rep.MapRangesForked, "map_ranges_in_insertion_order": rep.MapRangesFixed,
 			"non_ascii_decode_events": rep.NonASCII, "findings": fnd,
+			"guarded_accesses_checked": rep.GuardedAccesses, "fields_stored_under_lock": keysOf(rep.StoredLabels), "fields_read_without_lock": rep.UnlockedLoads,
 		})
 	}
 	type fc struct {
@@ -596,4 +613,13 @@ func max1(n int) int {
 		return 1
 	}
 	return n
+}
+
+func keysOf(m map[string]bool) []string {
+	var out []string
+	for k := range m {
+		out = append(out, k)
+	}
+	sort.Strings(out)
+	return out
 }
